@@ -156,6 +156,9 @@ func (p *Parser[G]) Lexer() lexer.Definition {
 // Lex uses the parser's lexer to tokenise input.
 // Parameter filename is used as an opaque prefix in error messages.
 func (p *Parser[G]) Lex(filename string, r io.Reader) ([]lexer.Token, error) {
+	if filename == "" {
+		filename = lexer.NameOfReader(r) // As Parse does.
+	}
 	lex, err := p.lex.Lex(filename, r)
 	if err != nil {
 		return nil, err
